@@ -61,6 +61,7 @@ func dxilOptionSets(thorough bool, r *run.Rng, mod *ir.Module) []dxilOpt {
 }
 
 func C18(c *run.Ctx) int {
+	replayWitnesses(c, map[string]func(witness) string{"dxil-determinism": witnessDxilDeterminism})
 	corpus := loadCorpus()
 	nGen := c.N(400, 6000)
 	c.SetExtra("rules_implemented", dxbcx.RuleIDs())
@@ -154,4 +155,31 @@ func c18Eval(c *run.Ctx, id, src string, feats map[string]int, seed uint64) run.
 	}
 	cov["containers-checked"] = checked
 	return run.Outcome{V: run.Held, Sig: cases.FeatureSig(feats), Cov: cov, Sample: map[string]any{"case": id, "containers_checked": checked}}
+}
+
+// witnessDxilDeterminism: every entry point compiled 30 times from freshly lowered modules must give identical bytes.
+func witnessDxilDeterminism(w witness) string {
+	for epi := 0; ; epi++ {
+		var first []byte
+		for k := 0; k < 30; k++ {
+			mod, stage, err := lowerSrc(w.Src)
+			if err != nil {
+				return stage + ": " + err.Error()
+			}
+			if epi >= len(mod.EntryPoints) {
+				return ""
+			}
+			mod.EntryPoints = []ir.EntryPoint{mod.EntryPoints[epi]}
+			var bin []byte
+			var cerr error
+			if _, pan := run.Catch(func() { bin, cerr = dxil.Compile(mod, dxil.DefaultOptions()) }); pan || cerr != nil {
+				break // this entry point is not compilable: nothing to compare
+			}
+			if first == nil {
+				first = bin
+			} else if !bytes.Equal(first, bin) {
+				return fmt.Sprintf("entry point %d: compilation %d differs from the first", epi, k)
+			}
+		}
+	}
 }
